@@ -595,13 +595,15 @@ func (a *Emitter) EmitBytes(b []byte) {
 }
 
 func (a *Emitter) REP(c Flags) {
-	a.AssumeREP(c)
 	a.emit2("rep", "#$%02x", [2]byte{0xC2, byte(c)})
+	// track the new widths only once the instruction has really been emitted:
+	a.AssumeREP(c)
 }
 
 func (a *Emitter) SEP(c Flags) {
-	a.AssumeSEP(c)
 	a.emit2("sep", "#$%02x", [2]byte{0xE2, byte(c)})
+	// track the new widths only once the instruction has really been emitted:
+	a.AssumeSEP(c)
 }
 
 func (a *Emitter) NOP() {
